@@ -29,7 +29,19 @@ def _around(h, w, y, x):
 
 def gen_problem(rng, tier):
     h, w = rng.choice(_SIZES)
-    mode = rng.random()
+    return _gen(rng, h, w)
+
+
+def extra_program_problems(rng):
+    """Larger boards for the program correspondence only (nothing is enumerated there): one non-square medium board and two
+    with more than 256 cells (a tall and a wide one), built like the small ones, never without clues."""
+    from . import _loop
+    return [_gen(rng, h, w, mode=rng.uniform(0.08, 1.0)) for h, w in _loop.big_shapes(rng)]
+
+
+def _gen(rng, h, w, mode=None):
+    if mode is None:
+        mode = rng.random()
     white = [[rng.random() < rng.choice([0.3, 0.5, 0.8]) for _ in range(w)] for _ in range(h)]
     if mode < 0.08:
         pb = [[-1] * (w + 1) for _ in range(h + 1)]          # empty clue set
